@@ -1,0 +1,11 @@
+//go:build verif
+
+// Contracts for deductive verification (comment-only; read by /verif/govc, never compiled into the product).
+
+package pb
+
+// Assumed: the generated gRPC stub does not write executor memory that existed before the call; the reply is a new object.
+//@ func (c OccClient) Transition(ctx context.Context, in *TransitionRequest, opts ...grpc.CallOption) (resp *TransitionReply, err error)
+//@   noverify
+//@   modifies nothing
+//@   ensures resp == nil || fresh(resp)
